@@ -7,7 +7,7 @@
 //     seed       schedule seed (per-thread PRNG = splitmix64(seed, thread))
 //     perturb    0: no perturbation; 1: seeded sched_yield()/usleep(0..300us) between items
 //     prewarm    comma separated warm-up actions executed by the MAIN thread before the threads are released
-//                (only used to step over known findings): kidok | rangetoken
+//                (only used to step over known findings): kidok | rangetoken | pool (runs the poolwarm.<k> items)
 //     warmcats   comma separated category names for the `rangetoken` warm-up
 //     pool.xsd / pool.dtd   grammars preloaded into ONE shared XMLGrammarPoolImpl which is then lockPool()ed
 //     i.<t>.<j>  work item j of thread t: a nested request (same format) with field `k` = item kind:
@@ -526,7 +526,17 @@ int main(int argc, char** argv) {
         // warm-ups for known findings
         std::vector<std::string> warm = split(get(top, "prewarm"), ',');
         for (size_t i = 0; i < warm.size(); i++) {
-            if (warm[i] == "kidok") warmKidOK();
+            if (warm[i] == "pool" && pool) {
+                // one main-thread validation per preloaded grammar: creates the lazily built content models and the
+                // lazily built match maps of the pattern facets inside the shared grammars
+                FacSet dummy;
+                for (int k = 0;; k++) {
+                    Req::const_iterator it = top.find("poolwarm." + std::to_string(k));
+                    if (it == top.end()) break;
+                    Req wr; if (parseNested(it->second, wr)) runParseItem(wr, pool, dummy);
+                }
+            }
+            else if (warm[i] == "kidok") warmKidOK();
             else if (warm[i] == "rangetoken") warmRangeToken(get(top, "warmcats"));
         }
 
